@@ -9,6 +9,8 @@ import (
 	"errors"
 	"fmt"
 	"io"
+	"net"
+	"os"
 	"slices"
 	"sort"
 	"time"
@@ -994,6 +996,72 @@ func Run(r *ev.Run) {
 		}
 	}
 
+	// ---- a read that fails TEMPORARILY in the middle of a record while the client's stream is still interpreted (between the
+	// HelloRetryRequest and the second hello): whatever the Conn does afterwards - stay failed, or carry on - the bytes it
+	// delivers are a prefix of what the client sent (with the second hello replaced): the record framing is never lost ----
+	{
+		var hrr *scenario
+		for i := range scs {
+			if scs[i].name == "accepted-hrr" {
+				hrr = &scs[i]
+			}
+		}
+		ch1 := hrr.steps[0].data
+		st := hrr.steps[2]
+		clientBytes, want := st.data, st.expect // ccs + second hello + tail  ->  ccs + inner second hello + tail
+		timeout := os.ErrDeadlineExceeded
+		for cut := 1; cut <= 6; cut++ { // inside the change_cipher_spec record that precedes the second hello, and right after it
+			// (a cut inside the hello's own record leaves a partial record whose delivery the main oracle of this check defines)
+			for _, again := range []int{1, 3} { // the read fails once, or three times in a row, before the bytes arrive
+				sc := &scriptConn{}
+				sc.reads = append(sc.reads, scriptRead{data: ch1})
+				conn, err := ech.NewConn(ctxBG, sc, ech.WithKeys(hrr.keys))
+				if err != nil {
+					ev.ToolError("c07: %v", err)
+				}
+				buf := make([]byte, 70000)
+				if n, err := conn.Read(buf); err != nil || n < 5 {
+					ev.ToolError("c07: first hello not delivered: %d %v", n, err)
+				}
+				if _, err := conn.Write(hrr.steps[1].data); err != nil {
+					ev.ToolError("c07: %v", err)
+				}
+				sc.reads = append(sc.reads, scriptRead{data: clientBytes[:cut]})
+				for i := 0; i < again; i++ {
+					sc.reads = append(sc.reads, scriptRead{err: timeout})
+				}
+				sc.reads = append(sc.reads, scriptRead{data: clientBytes[cut:]}, scriptRead{err: io.EOF})
+				var got []byte
+				sawErr, recovered := false, false
+				func() {
+					defer func() {
+						if p := recover(); p != nil {
+							r.Violation("panic:temporary-read-error-mid-record", fmt.Sprint(p), cut)
+						}
+					}()
+					for i := 0; i < 200 && len(sc.reads) > 0; i++ {
+						n, err := conn.Read(buf)
+						got = append(got, buf[:n]...)
+						if err != nil {
+							sawErr = true
+						} else if sawErr && n > 0 {
+							recovered = true
+						}
+					}
+				}()
+				oc := "stays failed"
+				if recovered {
+					oc = "carries on"
+				}
+				if !bytes.HasPrefix(want, got) {
+					oc = "FRAMING LOST"
+					r.Violation("temporary-read-error-mid-record:framing-lost", fmt.Sprintf("the transport read failed temporarily %d time(s) after %d of the client's bytes (in the middle of a record); afterwards the Conn delivered %d bytes that are NOT a prefix of the client's stream with the second hello replaced (first difference at offset %d)", again, cut, len(got), firstDiff(got, want)), cut)
+				}
+				r.Eval(fmt.Sprint("tmp-mid-record:", cut, again), "temporary read error mid-record -> "+oc)
+			}
+		}
+	}
+
 	// ---- every record length x content type, both directions ----
 	lengths := []int{}
 	for l := 0; l <= 16640; l++ {
@@ -1040,4 +1108,48 @@ func Run(r *ev.Run) {
 		})
 		r.Eval(p.Scenario, "sweep -> "+oc)
 	})
+}
+
+// scriptConn is a transport whose Read results are scripted one by one (data, or an error); writes are recorded.
+type scriptRead struct {
+	data []byte
+	err  error
+}
+
+type scriptConn struct {
+	reads []scriptRead
+	out   []byte
+}
+
+func (c *scriptConn) Read(p []byte) (int, error) {
+	if len(c.reads) == 0 {
+		return 0, io.EOF
+	}
+	r := &c.reads[0]
+	if r.err != nil {
+		c.reads = c.reads[1:]
+		return 0, r.err
+	}
+	n := copy(p, r.data)
+	r.data = r.data[n:]
+	if len(r.data) == 0 {
+		c.reads = c.reads[1:]
+	}
+	return n, nil
+}
+func (c *scriptConn) Write(p []byte) (int, error)      { c.out = append(c.out, p...); return len(p), nil }
+func (c *scriptConn) Close() error                     { return nil }
+func (c *scriptConn) LocalAddr() net.Addr              { return nil }
+func (c *scriptConn) RemoteAddr() net.Addr             { return nil }
+func (c *scriptConn) SetDeadline(time.Time) error      { return nil }
+func (c *scriptConn) SetReadDeadline(time.Time) error  { return nil }
+func (c *scriptConn) SetWriteDeadline(time.Time) error { return nil }
+
+func firstDiff(a, b []byte) int {
+	for i := 0; i < len(a) && i < len(b); i++ {
+		if a[i] != b[i] {
+			return i
+		}
+	}
+	return min(len(a), len(b))
 }
